@@ -11,6 +11,7 @@ matter.  `conj : C → C` is complex conjugation (`id` for real arrays).  Sums a
 The inner product is `⟨a, b⟩ = Σ conj(a) · b`.  A backprop routine `B` is right for a linear forward
 routine `A` iff `⟨y, A x⟩ = ⟨B y, x⟩` for all `x, y`.
 -/
+set_option linter.unusedVariables false
 namespace Model.C06
 open Num
 
@@ -20,15 +21,19 @@ abbrev Mat (C : Type) := Nat → Nat → C
 section linear
 variable {C : Type} [Num C]
 
-/-- evaluate an `m × n` array once and look the values up afterwards (semantically the identity:
-`tab_eq` in `Lemmas/C06Basic.lean`); keeps the interpreted driver polynomial-time -/
-def tab (m n : Nat) (f : Mat C) : Mat C :=
-  let a : Array C := Array.ofFn (n := m * n) fun (t : Fin (m * n)) => f (t.val / n) (t.val % n)
-  fun i j => if i < m ∧ j < n then (a[i * n + j]?).getD (f i j) else f i j
+/-- a tabulated `m × n` array (row major).  The pure definitions below are functions of the indices; the
+driver evaluates the `…T` variants, which materialise every intermediate array once (`Tab.ofFn`) so that the
+interpreted model stays polynomial-time.  Inside the extents a table returns exactly the tabulated function
+(`Tab.fn_ofFn` in `Lemmas/C06Basic.lean`). -/
+structure Tab (C : Type) where
+  m : Nat
+  n : Nat
+  a : Array C
 
-def tabv (n : Nat) (f : Vec C) : Vec C :=
-  let a : Array C := Array.ofFn (n := n) fun (t : Fin n) => f t.val
-  fun i => (a[i]?).getD (f i)
+def Tab.ofFn (m n : Nat) (f : Mat C) : Tab C :=
+  ⟨m, n, Array.ofFn (n := m * n) fun (t : Fin (m * n)) => f (t.val / n) (t.val % n)⟩
+
+def Tab.fn (t : Tab C) : Mat C := fun i j => if i < t.m ∧ j < t.n then t.a.getD (i * t.n + j) (Num.ofInt 0) else Num.ofInt 0
 
 /-- `⟨a, b⟩ = Σ_{i<n} conj(a i) · b i` -/
 def ip (conj : C → C) (n : Nat) (a b : Vec C) : C := sumTo n fun i => conj (a i) * b i
@@ -48,15 +53,15 @@ def hadamard (A B : Mat C) : Mat C := fun i j => A i j * B i j
 
 /-- `MatrixDFTExecutor.dft2`: `Eout @ ary @ Ein`; `Eo : M×m`, `f : m×n`, `Ei : n×N` -/
 def dft2 (M m n N : Nat) (Eo f Ei : Mat C) : Mat C :=
-  tab M N (matmul n (tab M n (matmul m Eo f)) Ei)
+  matmul n (matmul m Eo f) Ei
 
 /-- `MatrixDFTExecutor.idft2`: `Eout @ (ary @ Ein)` -/
 def idft2 (M m n N : Nat) (Eo f Ei : Mat C) : Mat C :=
-  tab M N (matmul m Eo (tab m N (matmul n f Ei)))
+  matmul m Eo (matmul n f Ei)
 
 /-- `dft2_backprop` / `idft2_backprop`: `Eout.T.conj() @ (fbar @ Ein.T.conj())`; `y : M×N`, result `m×n` -/
 def dftBack (conj : C → C) (M m n N : Nat) (Eo y Ei : Mat C) : Mat C :=
-  tab m n (matmul M (conjT conj Eo) (tab M n (matmul N y (conjT conj Ei))))
+  matmul M (conjT conj Eo) (matmul N y (conjT conj Ei))
 
 /-- `to_fpm_and_back` as an operator: focus leg (bases `Eo1 : M0×p0`, `Ei1 : p1×M1`), mask (`M0×M1`),
 return leg (bases `Eo2 : p0×M0`, `Ei2 : M1×p1`) -/
@@ -192,8 +197,8 @@ def mdftBases (cosf sinf sqrtf : K → K) (twoPi sigma : K) (m n M N : Nat) (Qy 
     Mat (Cx K) × Mat (Cx K) :=
   let normy := sqrtf (Num.ofInt 1 / (Num.ofInt (m : Int) * Qy))
   let normx := sqrtf (Num.ofInt 1 / (Num.ofInt (n : Int) * Qx))
-  (tab M m (basisOut cosf sinf twoPi sigma m M Qy sy normx),
-   tab n N (basisIn cosf sinf twoPi sigma n N Qx sx normy))
+  (basisOut cosf sinf twoPi sigma m M Qy sy normx,
+   basisIn cosf sinf twoPi sigma n N Qx sx normy)
 
 /-- `dft2_backprop(y, Q, samples_in=(m,n), shift)` (σ = 1) / `idft2_backprop` (σ = −1) -/
 def mdftBack (cosf sinf sqrtf : K → K) (twoPi sigma : K) (m n M N : Nat) (Qy Qx sx sy : K)
@@ -221,17 +226,52 @@ def fpmBackFull (cosf sinf sqrtf : K → K) (twoPi : K) (p0 p1 M0 M1 : Nat)
     (dx efl wavelength fpmDx sx sy : K) (mask y : Mat (Cx K)) : Mat (Cx K) :=
   let eb := fixedBack cosf sinf sqrtf twoPi (Num.ofInt (-1)) M0 M1 p0 p1 fpmDx efl wavelength dx
               (sx * dx / fpmDx) (sy * dx / fpmDx) y
-  let inter : Mat (Cx K) := tab M0 M1 fun i j => eb i j * Cx.conj (mask i j)
+  let inter : Mat (Cx K) := fun i j => eb i j * Cx.conj (mask i j)
   fixedBack cosf sinf sqrtf twoPi (Num.ofInt 1) p0 p1 M0 M1 dx efl wavelength fpmDx sx sy inter
 
 /-- `babinet_backprop` (no shift): `cbar − T^H cbar`, `cbar = conj(L) ⊙ y`, mask `1 − fpm` -/
 def babinetBackFull (cosf sinf sqrtf : K → K) (twoPi : K) (p0 p1 M0 M1 : Nat)
     (dx efl wavelength fpmDx : K) (fpm lyot y : Mat (Cx K)) : Mat (Cx K) :=
   let one : Cx K := ⟨Num.ofInt 1, Num.ofInt 0⟩
-  let cbar : Mat (Cx K) := tab p0 p1 fun i j => Cx.conj (lyot i j) * y i j
+  let cbar : Mat (Cx K) := fun i j => Cx.conj (lyot i j) * y i j
   let t := fpmBackFull cosf sinf sqrtf twoPi p0 p1 M0 M1 dx efl wavelength fpmDx (Num.ofInt 0) (Num.ofInt 0)
               (fun i j => one - fpm i j) cbar
   fun i j => cbar i j - t i j
+
+/-! ### tabulated variants run by the driver (same stages, every intermediate array materialised once) -/
+
+def dftBackT (M m n N : Nat) (Eo y Ei : Mat (Cx K)) : Tab (Cx K) :=
+  let t := Tab.ofFn M n (matmul N y (conjT Cx.conj Ei))
+  Tab.ofFn m n (matmul M (conjT Cx.conj Eo) t.fn)
+
+def mdftBackT (cosf sinf sqrtf : K → K) (twoPi sigma : K) (m n M N : Nat) (Qy Qx sx sy : K)
+    (y : Mat (Cx K)) : Tab (Cx K) :=
+  let b := mdftBases cosf sinf sqrtf twoPi sigma m n M N Qy Qx sx sy
+  let eo := Tab.ofFn M m b.1
+  let ei := Tab.ofFn n N b.2
+  dftBackT M m n N eo.fn y ei.fn
+
+def fixedBackT (cosf sinf sqrtf : K → K) (twoPi sigma : K) (m n M N : Nat)
+    (inputDx propDist wavelength outputDx sx sy : K) (y : Mat (Cx K)) : Tab (Cx K) :=
+  mdftBackT cosf sinf sqrtf twoPi sigma m n M N
+    (fixedQ (Num.ofInt (m : Int)) inputDx propDist wavelength outputDx)
+    (fixedQ (Num.ofInt (n : Int)) inputDx propDist wavelength outputDx)
+    (sx / outputDx) (sy / outputDx) y
+
+def fpmBackFullT (cosf sinf sqrtf : K → K) (twoPi : K) (p0 p1 M0 M1 : Nat)
+    (dx efl wavelength fpmDx sx sy : K) (mask y : Mat (Cx K)) : Tab (Cx K) :=
+  let eb := fixedBackT cosf sinf sqrtf twoPi (Num.ofInt (-1)) M0 M1 p0 p1 fpmDx efl wavelength dx
+              (sx * dx / fpmDx) (sy * dx / fpmDx) y
+  let inter := Tab.ofFn M0 M1 fun i j => eb.fn i j * Cx.conj (mask i j)
+  fixedBackT cosf sinf sqrtf twoPi (Num.ofInt 1) p0 p1 M0 M1 dx efl wavelength fpmDx sx sy inter.fn
+
+def babinetBackFullT (cosf sinf sqrtf : K → K) (twoPi : K) (p0 p1 M0 M1 : Nat)
+    (dx efl wavelength fpmDx : K) (fpm lyot y : Mat (Cx K)) : Tab (Cx K) :=
+  let one : Cx K := ⟨Num.ofInt 1, Num.ofInt 0⟩
+  let cbar := Tab.ofFn p0 p1 fun i j => Cx.conj (lyot i j) * y i j
+  let t := fpmBackFullT cosf sinf sqrtf twoPi p0 p1 M0 M1 dx efl wavelength fpmDx (Num.ofInt 0) (Num.ofInt 0)
+              (fun i j => one - fpm i j) cbar.fn
+  Tab.ofFn p0 p1 fun i j => cbar.fn i j - t.fn i j
 
 /-- `Wavefront.intensity_backprop`: `Gbar = 2 · Ibar · E` -/
 def intensityBack (Ibar : K) (E : Cx K) : Cx K := Cx.smul (Num.ofInt 2 * Ibar) E
